@@ -164,6 +164,21 @@ CLAIMED = {
             "the thorough tier runs every product with enlarged span pools. Which value an Ok result must have is decided "
             "by the other properties' checks (C06-C13).",
             "TLA+ range/totality spec evaluated by TLC over paired traces of two builds", "DESIGN.md §5 C05"),
+    "C11": ("model_checking",
+            "SpanRel.tla states what a span means relative to a reference (reference (+) span by the civil and zoned "
+            "addition semantics of CivilArith.tla / Zoned.tla, the balanced difference by the until rules) and derives "
+            "from it the goal of every Span::round / total / compare: exact rounded nanoseconds for uniform units "
+            "(Round.tla, model-checked), the position of the lower or upper candidate the mode prescribes for calendar "
+            "units (with balancing at the boundary of the next larger unit), exact rational totals, and the order of the two "
+            "positions. TLC recomputes every observed call (no reference, days-are-24-hours, civil datetimes and dates, "
+            "zoned datetimes near transitions in ~44 zones; every smallest x largest x mode; legal and illegal increments) "
+            "and checks the result's shape and that reference (+) result is the prescribed position.",
+            "Trusted: TLC, the harness's zone readers, witnesses verified by multiplication. Not settled by the wording and "
+            "checked only for shape and distance: day/week steps > 1 below a larger unit, zoned time units re-rounded "
+            "across a day boundary, half-even ties (total vs. remainder), candidates beyond range limits (may be refused). "
+            "Known findings D40 (f64 progress fraction) and D41 (weeks under months across a transition) are listed in "
+            "KNOWN_FINDINGS.txt.",
+            "TLA+ relational span semantics evaluated by TLC over implementation traces; Round.tla model-checked", "DESIGN.md §5 C11"),
     "C17": ("exploration",
             "Totality cannot be exhausted; it is explored. Mutate.tla specifies the mutation language of the property's "
             "quantifier (14 grammar-aware operators x position x variant); TLC enumerates all 504 one-step plans and samples "
